@@ -69,7 +69,7 @@
 #define FAR_NS (5ull * NSEC_PER_SEC)
 enum { K_SOURCE = 0, K_AFTER = 1, K_AFTER_F = 2 };
 enum { OP_SET_OWN = 1, OP_SET_FOREIGN, OP_SUSPEND, OP_RESUME, OP_CANCEL, OP_BUSY };
-enum { SC_RANDOM = 0, SC_SUSP_FIRE, SC_BUSY_QUEUE, SC_SLOW_HANDLER, SC_ONESHOT_FIRED, SC_CFG_WINDOW, SC_N };
+enum { SC_RANDOM = 0, SC_SUSP_FIRE, SC_BUSY_QUEUE, SC_SLOW_HANDLER, SC_ONESHOT_FIRED, SC_CFG_WINDOW, SC_RESET_ARMED, SC_N };
 
 typedef struct {
 	int clock;            /* DISPATCH_CLOCK_UPTIME / MONOTONIC / WALL */
@@ -99,6 +99,9 @@ typedef struct tmr {
 	int scen; int slow_at; uint64_t slow_us;   /* scenario; handler sleeps slow_us at invocation slow_at */
 	/* binding to the hooked words (guarded by hl) */
 	_Atomic int hl, cfg_window; int gen_x;     /* publications so far: xchg(dt_pending_config, new) in dispatch_source_set_timer */
+	int take_th[MAXG], latch_th;               /* thread that took configuration g / that latched last (guarded by hl) */
+	/* directed re-set population (see directed_reset) */
+	_Atomic uint64_t inv_up[2], set_up, hret_up; _Atomic int cancelled_done; uint64_t slow_after_us; int chain;
 	const void *dt;
 	op_t ops[MAXOPS]; int nops;
 	cfgspec_t first;
@@ -112,14 +115,27 @@ static uint64_t g_seed; static const char *g_failout;
 static _Atomic int g_fail;
 static _Atomic long g_invocations, g_checks_exact, g_checks_weak, g_zero_data, g_inconclusive, g_after_runs, g_sets;
 static _Atomic long g_checks_bound, g_bind_mismatch, g_cfg_disarmed_pending, g_cfg_armed_pending, g_cfgs, g_cfg_unclosed;
-static long g_scen[SC_N], g_trace_cfgs;
+static long g_scen[SC_N], g_trace_cfgs, g_trace_offmgr_heap, g_trace_offmgr_takes;
+static int g_directed;     /* C11_DIRECTED_RESET=1: the directed re-set population (directed_reset) */
+static _Atomic long g_dir_rounds, g_dir_detectable, g_dir_ontime, g_dir_late_unproven, g_dir_inconclusive, g_dir_reset_while_armed, g_dir_applied_by_mgr, g_dir_max_late_us;
 static uint64_t g_t0_up;
 static uint64_t g_span_ms;
 static int g_trace_only;   /* C11_TRACE_ONLY=1 (demonstrations only): record the trace, do not judge in the driver */
 
 /* ---- trace mode ---- */
 static const char *g_traceout;
-typedef struct { const char *kind; const void *obj; long a, b; } prec_t;
+typedef struct { const char *kind; const void *obj; long a, b; int th; } prec_t;
+/* ownership (Timer.tla: the heaps and the timerfds belong to the manager): every record carries the thread that made it;
+ * the manager is the thread that enters epoll_wait / merges timerfd events (probes tm_wait, tm_kevent) */
+static _Atomic int g_nth, g_mgr_th, g_mgr_threads; static __thread int tl_th;
+static int my_th(void) { if (!tl_th) tl_th = atomic_fetch_add(&g_nth, 1) + 1; return tl_th; }
+static void note_manager(void)
+{
+	int me = my_th(), cur = atomic_load(&g_mgr_th);
+	if (cur == me) return;
+	if (cur == 0 && atomic_compare_exchange_strong(&g_mgr_th, &cur, me)) { atomic_fetch_add(&g_mgr_threads, 1); return; }
+	if (cur != me) atomic_fetch_add(&g_mgr_threads, 1);      /* a second thread in the manager's loop: reported as drift */
+}
 #define PCAP (1u << 21)
 static prec_t *g_prec; static _Atomic unsigned g_nprec; static _Atomic int g_plock;
 static uint64_t g_base[3];
@@ -127,9 +143,11 @@ extern void (*_dispatch_verif_probe)(const char *, const volatile void *, long, 
 static void probe_cb(const char *kind, const volatile void *obj, long a, long b)
 {
 	if (kind[0] != 't' || kind[1] != 'm' || kind[2] != '_') return;
+	if (kind[3] == 'w' || (kind[3] == 'k' && kind[4] == 'e')) note_manager();      /* tm_wait, tm_kevent */
+	if (!g_prec) return;
 	while (atomic_exchange_explicit(&g_plock, 1, memory_order_acquire)) { }
 	unsigned i = atomic_load(&g_nprec);
-	if (i < PCAP) { g_prec[i] = (prec_t){ kind, (const void *)obj, a, b }; atomic_store(&g_nprec, i + 1); }
+	if (i < PCAP) { g_prec[i] = (prec_t){ kind, (const void *)obj, a, b, my_th() }; atomic_store(&g_nprec, i + 1); }
 	atomic_store_explicit(&g_plock, 0, memory_order_release);
 }
 
@@ -143,7 +161,8 @@ static unsigned hslot(const void *p) { return (unsigned)((((uintptr_t)p) >> 4) *
 static void map_timer(const void *dt, struct tmr *t)
 {
 	unsigned i = hslot(dt);
-	while (atomic_load(&g_map[i].dt)) i = (i + 1) % HSLOTS;
+	/* (the directed population releases its sources: an address may come back; the newest timer owns it) */
+	while (atomic_load(&g_map[i].dt) && atomic_load(&g_map[i].dt) != dt) i = (i + 1) % HSLOTS;
 	g_map[i].t = t; atomic_store(&g_map[i].dt, dt);
 }
 static struct tmr *timer_of(const void *dt)
@@ -159,6 +178,8 @@ static __thread struct tmr *tl_locked;
 static __thread struct { struct tmr *t; const void *dt; uint64_t pend; } tl_cfg;   /* configure in progress on this thread */
 static __thread struct { struct tmr *t; uint64_t val; } tl_preclear;                /* configure cleared before taking (value it overwrote) */
 static __thread struct { struct tmr *t; int in_window; } tl_latch;                 /* this thread's last latch (xchg ds_pending_data) */
+static __thread struct { struct tmr *t; int marker; } tl_lastlatch;                 /* the same, kept: did the latched value carry the DISARMED marker */
+static _Atomic long g_take_tq_marker, g_take_tq_nomarker, g_take_nolatch, g_take_armed;
 /* C11_STEER_CFG_WINDOW=<us> (directed population): when _dispatch_timers_run calls _dispatch_timer_unote_configure, stall the
  * manager between the two accesses "take the configuration" (xchg dt_pending_config -> NULL) and "clear ds_pending_data",
  * in whichever order the library performs them, i.e. a preemption of the manager thread at that instruction */
@@ -170,7 +191,7 @@ static void prec_add(const char *kind, const void *obj, long a, long b)
 {
 	while (atomic_exchange_explicit(&g_plock, 1, memory_order_acquire)) { }
 	unsigned i = atomic_load(&g_nprec);
-	if (i < PCAP) { g_prec[i] = (prec_t){ kind, obj, a, b }; atomic_store(&g_nprec, i + 1); }
+	if (i < PCAP) { g_prec[i] = (prec_t){ kind, obj, a, b, my_th() }; atomic_store(&g_nprec, i + 1); }
 	atomic_store_explicit(&g_plock, 0, memory_order_release);
 }
 /* site classes: 1 dt_pending_config; ds_pending_data: 3 the latch (xchg in _dispatch_source_latch_and_call), 4 the clearing
@@ -231,11 +252,22 @@ static void hook_post(struct dispatch_verif_site_s *site, const volatile void *a
 			if (pend & DISPATCH_TIMER_DISARMED_MARKER) atomic_fetch_add(&g_cfg_disarmed_pending, 1);
 			else if (pend) atomic_fetch_add(&g_cfg_armed_pending, 1);
 			if (at_take) atomic_store(&t->cfg_window, 1);       /* taken, pending data of the old configuration not cleared yet */
+			/* who takes it (Timer.tla OffManagerMayConfigure): lm = 1 / 0 this thread is delivering this timer and the data it
+			 * latched had / had not the DISARMED marker, -1 it never latched this timer (the manager, or activation) */
+			{
+				int lm = tl_lastlatch.t == t ? tl_lastlatch.marker : -1;
+				int armed = _dispatch_unote_armed((dispatch_timer_source_refs_t)t->dt) ? 1 : 0;
+				atomic_fetch_add(lm == 1 ? &g_take_tq_marker : lm == 0 ? &g_take_tq_nomarker : &g_take_nolatch, 1);
+				if (armed) atomic_fetch_add(&g_take_armed, 1);
+				t->take_th[t->gen_x < MAXG ? t->gen_x : MAXG - 1] = my_th();
+				if (g_traceout && g_prec) prec_add("tm_cfgtake", t->dt, lm, armed);
+			}
 		} else if (c == 1 && site->dvs_op[0] == 'l') {           /* needs_configuration / needs_rearm / timers_run */
 			tl_chk.t = t; tl_chk.gen = t->gen_x; tl_chk.isnull = (ov == 0); tl_chk.done = atomic_load(&t->gen_done);
 			tl_from_run = ov != 0 && strstr(site->dvs_func, "_dispatch_timers_run") != NULL; tl_cfg_phase = 0;
 		} else if (c == 3) {                                     /* the latch of the invoke that is about to call the handler */
 			tl_latch.t = t; tl_latch.in_window = ov != 0 && atomic_load(&t->cfg_window);
+			tl_lastlatch.t = t; tl_lastlatch.marker = (ov & DISPATCH_TIMER_DISARMED_MARKER) ? 1 : 0; t->latch_th = my_th();
 			if (tl_latch.in_window) atomic_fetch_add(&g_window_latches, 1);
 		} else if (c == 4) {
 			atomic_store(&t->cfg_window, 0);
@@ -280,7 +312,8 @@ static void tlog(tmr_t *t, char what, int gen, uint64_t now, uint64_t data, uint
 static void dump_timer(FILE *f, tmr_t *t)
 {
 	static const char *SCN[] = { "random", "fire-while-suspended,set_timer,resume", "fire-while-target-queue-busy,set_timer", "slow-handler-sets-timer", "one-shot-fired,set_timer",
-			"one fire pending behind a busy queue,set_timer,second fire configures in _dispatch_timers_run (manager stalled),queue drains" };
+			"one fire pending behind a busy queue,set_timer,second fire configures in _dispatch_timers_run (manager stalled),queue drains",
+			"armed repeating timer on a private serial queue re-sets itself from its own handler, process otherwise idle" };
 	fprintf(f, "{\"timer\":%d,\"kind\":%d,\"scenario\":\"%s\",\"own_queue_controlled\":%d,\"gen_pub\":%d,\"gen_done\":%d,\"cur\":%d,\"publications_seen\":%d,\"configs\":[",
 			t->id, t->kind, SCN[t->scen], t->own, atomic_load(&t->gen_pub), atomic_load(&t->gen_done), t->cur, t->gen_x);
 	for (int g = 1; g <= atomic_load(&t->gen_pub) && g < MAXG; g++)
@@ -370,6 +403,7 @@ static void do_set(tmr_t *t, const cfgspec_t *s, int from_own_queue)
 	atomic_store(&t->gen_pub, g);
 	tlog(t, from_own_queue ? 's' : 'S', g, t->cfgs[g].start, t->cfgs[g].interval, (uint64_t)t->cfgs[g].clock);
 	dispatch_source_set_timer(t->ds, when, s->interval_ns ? s->interval_ns : DISPATCH_TIME_FOREVER, s->leeway_ns);
+	atomic_store(&t->set_up, _dispatch_uptime());
 	atomic_store(&t->gen_done, g);
 	if (from_own_queue) t->cur = g;
 	atomic_fetch_add(&g_sets, 1);
@@ -397,6 +431,7 @@ static int check_gen(tmr_t *t, int g, uint64_t data, int commit, uint64_t *nowp)
 static void source_handler(void *ctx)
 {
 	tmr_t *t = ctx;
+	uint64_t up_entry = _dispatch_uptime();
 	/* the needs-configuration load of the invoke2 that is delivering this invocation (same thread): it returned NULL
 	 * after exactly G publications */
 	int bound = tl_chk.t == t && tl_chk.isnull, G = tl_chk.gen;
@@ -409,6 +444,7 @@ static void source_handler(void *ctx)
 	uint64_t data = dispatch_source_get_data(t->ds), now = 0;
 	if (bound && (G < 1 || G > pub || G >= MAXG)) bound = 0;
 	int n = atomic_fetch_add(&t->ninv, 1) + 1;
+	if (n <= 2) atomic_store(&t->inv_up[n - 1], up_entry);
 	atomic_fetch_add(&g_invocations, 1);
 	if (data == 0) atomic_fetch_add(&g_zero_data, 1);
 	if (t->own) {
@@ -449,7 +485,12 @@ static void source_handler(void *ctx)
 	if (_dispatch_uptime() >= atomic_load(&t->settle_up) && pub == done) atomic_fetch_add(&t->ninv_settled, 1);
 	tl_sig = "";
 	if (t->slow_at == n) usleep((useconds_t)t->slow_us);       /* the timer is disarmed behind the handler's back */
-	if (t->own && t->inh_at == n) do_set(t, &t->inh_spec, 1);
+	if (t->own && t->inh_at == n) {
+		do_set(t, &t->inh_spec, 1);
+		if (t->scen == SC_RESET_ARMED && _dispatch_unote_armed((dispatch_timer_source_refs_t)t->dt)) atomic_fetch_add(&g_dir_reset_while_armed, 1);
+		if (t->slow_after_us) usleep((useconds_t)t->slow_after_us);
+	}
+	if (n == 1) atomic_store(&t->hret_up, _dispatch_uptime());
 }
 
 static void after_body(void *ctx)
@@ -621,11 +662,22 @@ static void write_trace(long *nrec, int *exact, int *nslots)
 	static const void *slot_ptr[MAXSLOT]; static int slot_clk[MAXSLOT]; int hi = 0;
 	unsigned n = atomic_load(&g_nprec);
 	long inexact_arms = 0; int dummy = 1;
-	long lines = 0, pend_tidx = -1, pend_target = 0; const void *pend_dt = NULL; long prog_tidx = -1, prog_delay = 0;
+	long lines = 0, prog_tidx = -1, prog_delay = 0;
+	/* tm_arm / tm_arm_iv pairs are matched per thread (another thread's records may fall between the two) */
+	enum { PTH = 512 }; static struct { int th; const void *dt; long tidx, target; } pend[PTH];
+	/* the manager: the thread(s) that entered epoll_wait or merged a timerfd event */
+	int mgr = 0, nw = 0;
 	for (unsigned i = 0; i < n; i++) {
-		prec_t *r = &g_prec[i]; const char *k = r->kind + 3; int sl = -1;
+		const char *k = g_prec[i].kind + 3;
+		if (strcmp(k, "wait") && strcmp(k, "kevent")) continue;
+		if (nw == 0) { mgr = g_prec[i].th; nw = 1; } else if (g_prec[i].th != mgr && nw < 2) nw = 2;
+	}
+	fprintf(f, "{\"e\":\"threads\",\"mgr\":%d,\"nw\":%d}\n", mgr, nw); lines++;
+	for (unsigned i = 0; i < n; i++) {
+		prec_t *r = &g_prec[i]; const char *k = r->kind + 3; int sl = -1, th = r->th;
 		if (r->obj) for (int j = 0; j < hi; j++) if (slot_ptr[j] == r->obj) { sl = j; break; }
-		if (!strcmp(k, "arm")) { pend_dt = r->obj; pend_tidx = r->a; pend_target = r->b; }
+		const void *pend_dt = pend[th % PTH].th == th ? pend[th % PTH].dt : NULL; long pend_tidx = pend[th % PTH].tidx, pend_target = pend[th % PTH].target;
+		if (!strcmp(k, "arm")) { pend[th % PTH].th = th; pend[th % PTH].dt = r->obj; pend[th % PTH].tidx = r->a; pend[th % PTH].target = r->b; }
 		else if (!strcmp(k, "arm_iv") && pend_dt == r->obj) {
 			if (sl < 0) { for (int j = 0; j < hi && sl < 0; j++) if (!slot_ptr[j]) sl = j; if (sl < 0 && hi < MAXSLOT) sl = hi++; if (sl < 0) { *exact = 0; continue; } slot_ptr[sl] = r->obj; }
 			slot_clk[sl] = (int)DISPATCH_TIMER_CLOCK(pend_tidx);
@@ -634,31 +686,38 @@ static void write_trace(long *nrec, int *exact, int *nslots)
 			long tg = us_of(slot_clk[sl], pend_target, &ex);
 			/* x = 1: a timer whose target or interval is not a whole microsecond (e.g. the library's own
 			 * workqueue monitor timer): quotients by its interval are not reproducible in microseconds */
-			fprintf(f, "{\"e\":\"arm\",\"t\":%d,\"c\":%d,\"tgt\":%ld,\"iv\":%ld,\"x\":%d}\n", sl + 1, slot_clk[sl] + 1, tg, iv, !ex); lines++;
+			fprintf(f, "{\"e\":\"arm\",\"t\":%d,\"c\":%d,\"tgt\":%ld,\"iv\":%ld,\"x\":%d,\"th\":%d}\n", sl + 1, slot_clk[sl] + 1, tg, iv, !ex, th); lines++;
 			if (!ex) inexact_arms++;
-			pend_dt = NULL;
+			if (th != mgr) g_trace_offmgr_heap++;
+			pend[th % PTH].dt = NULL;
 		} else if (!strcmp(k, "disarm")) {
 			if (sl < 0) { *exact = 0; continue; }
-			fprintf(f, "{\"e\":\"disarm\",\"t\":%d,\"c\":%d}\n", sl + 1, (int)DISPATCH_TIMER_CLOCK(r->a) + 1); lines++;
+			fprintf(f, "{\"e\":\"disarm\",\"t\":%d,\"c\":%d,\"th\":%d}\n", sl + 1, (int)DISPATCH_TIMER_CLOCK(r->a) + 1, th); lines++;
+			if (th != mgr) g_trace_offmgr_heap++;
 			slot_ptr[sl] = NULL;
 		} else if (!strcmp(k, "run")) {
 			if (sl < 0) { *exact = 0; continue; }
-			fprintf(f, "{\"e\":\"run\",\"t\":%d,\"c\":%d,\"tgt\":%ld,\"now\":%ld}\n", sl + 1, slot_clk[sl] + 1, us_of(slot_clk[sl], r->a, &dummy), us_floor(slot_clk[sl], r->b)); lines++;
+			fprintf(f, "{\"e\":\"run\",\"t\":%d,\"c\":%d,\"tgt\":%ld,\"now\":%ld,\"th\":%d}\n", sl + 1, slot_clk[sl] + 1, us_of(slot_clk[sl], r->a, &dummy), us_floor(slot_clk[sl], r->b), th); lines++;
 		} else if (!strcmp(k, "fire") || !strcmp(k, "fire_after")) {
 			if (sl < 0) { *exact = 0; continue; }
 			int aft = k[4] == '_';
-			fprintf(f, "{\"e\":\"fire\",\"t\":%d,\"kind\":\"%s\",\"cnt\":%ld,\"ntgt\":%ld}\n", sl + 1, aft ? "after" : "source", r->a >> 1, aft ? -1 : us_of(slot_clk[sl], r->b, &dummy)); lines++;
+			fprintf(f, "{\"e\":\"fire\",\"t\":%d,\"kind\":\"%s\",\"cnt\":%ld,\"ntgt\":%ld,\"th\":%d}\n", sl + 1, aft ? "after" : "source", r->a >> 1, aft ? -1 : us_of(slot_clk[sl], r->b, &dummy), th); lines++;
 		} else if (!strcmp(k, "prog")) { prog_tidx = r->a; prog_delay = r->b; }
 		else if (!strcmp(k, "prog_now") && prog_tidx == r->a) {
 			int c = (int)DISPATCH_TIMER_CLOCK(prog_tidx);
 			int cls = prog_delay == 0 ? 0 : (uint64_t)prog_delay >= (uint64_t)INT64_MAX ? 2 : 1;
-			fprintf(f, "{\"e\":\"prog\",\"c\":%d,\"cls\":%d,\"now\":%ld}\n", c + 1, cls, cls == 2 ? 0 : us_floor(c, r->b)); lines++;
+			fprintf(f, "{\"e\":\"prog\",\"c\":%d,\"cls\":%d,\"now\":%ld,\"th\":%d}\n", c + 1, cls, cls == 2 ? 0 : us_floor(c, r->b), th); lines++;
 			prog_tidx = -1;
 		} else if (!strcmp(k, "kprog")) {
 			int c = (int)DISPATCH_TIMER_CLOCK(r->a);
-			fprintf(f, "{\"e\":\"kprog\",\"c\":%d,\"tgt\":%ld}\n", c + 1, us_of(c, r->b, &dummy)); lines++;
-		} else if (!strcmp(k, "kevent")) { fprintf(f, "{\"e\":\"kevent\",\"c\":%d}\n", (int)r->a + 1); lines++; }
-		else if (!strcmp(k, "wait")) { if (r->a != 0) { fprintf(f, "{\"e\":\"wait\"}\n"); lines++; } }
+			fprintf(f, "{\"e\":\"kprog\",\"c\":%d,\"tgt\":%ld,\"th\":%d}\n", c + 1, us_of(c, r->b, &dummy), th); lines++;
+		} else if (!strcmp(k, "kevent")) { fprintf(f, "{\"e\":\"kevent\",\"c\":%d,\"th\":%d}\n", (int)r->a + 1, th); lines++; }
+		else if (!strcmp(k, "wait")) { if (r->a != 0) { fprintf(f, "{\"e\":\"wait\",\"th\":%d}\n", th); lines++; } }
+		else if (!strcmp(k, "cfgtake")) {
+			/* t: the armed slot of that timer at this point (0: it is in no heap); lm / arm: see hook_post */
+			fprintf(f, "{\"e\":\"cfgtake\",\"t\":%d,\"th\":%d,\"lm\":%ld,\"arm\":%ld}\n", sl + 1, th, r->a, r->b); lines++;
+			if (th != mgr) g_trace_offmgr_takes++;
+		}
 		else if (!strcmp(k, "configure")) {
 			/* pd: ds_pending_data when the configuration was taken (0 none, 1 marker only, 2 count, 3 count|marker);
 			 * op/ov/nv: the configuring thread's next access to that word (1 store, 2 xchg, 3 load, 4 other rmw) */
@@ -668,6 +727,170 @@ static void write_trace(long *nrec, int *exact, int *nslots)
 	if (n >= PCAP) *exact = 0;
 	fclose(f);
 	*nrec = lines; *nslots = hi > 0 ? hi : 1;
+}
+
+static void finish(uint64_t waited_ms)
+{
+	if (atomic_load(&g_fail)) { printf("{\"seed\":%llu,\"failed\":1}\n", (unsigned long long)g_seed); fflush(stdout); _exit(2); }
+	/* late duplicates of dispatch_after blocks */
+	usleep(60000);
+	for (int i = 0; i < N; i++) if (T[i].kind != K_SOURCE && !atomic_load(&g_fail) &&
+			atomic_load(&T[i].aruns) != (T[i].acfg.start > clock_now(T[i].acfg.clock) ? 0 : 1))
+		oracle_fail(&T[i], "AfterExactlyOnce", "dispatch_after block did not run exactly once (a runs)", (uint64_t)atomic_load(&T[i].aruns), 0);
+	for (int i = 0; i < N; i++) if (T[i].kind == K_SOURCE && T[i].ds && !atomic_load(&T[i].cancelled)) {
+		if (atomic_load(&T[i].suspended)) dispatch_resume(T[i].ds);
+		dispatch_source_cancel(T[i].ds);
+	}
+	usleep(20000);
+	long trace_records = 0; int trace_exact = 1, trace_slots = 0;
+	if (g_traceout) { _dispatch_verif_probe = NULL; usleep(20000); write_trace(&trace_records, &trace_exact, &trace_slots); }
+	int nsrc = 0, naft = 0, own = 0; for (int i = 0; i < N; i++) { if (T[i].kind == K_SOURCE) { nsrc++; own += T[i].own; } else naft++; }
+	printf("{\"seed\":%llu,\"timers\":%d,\"sources\":%d,\"own_queue_controlled\":%d,\"after_blocks\":%d,\"set_timer_calls\":%ld,\"handler_invocations\":%ld,"
+			"\"exact_checks\":%ld,\"weak_checks\":%ld,\"after_runs\":%ld,\"zero_data_invocations\":%ld,\"inconclusive_wall_step\":%ld,\"final_wait_ms\":%llu,\"trace_records\":%ld,\"trace_exact\":%d,\"trace_slots\":%d,"
+			"\"bound_checks\":%ld,\"bind_mismatch\":%ld,\"configures\":%ld,\"configure_on_disarmed_pending\":%ld,\"configure_on_armed_pending\":%ld,\"configure_unclosed\":%ld,"
+			"\"scen_susp_fire\":%ld,\"scen_busy_queue\":%ld,\"scen_slow_handler\":%ld,\"scen_oneshot_fired\":%ld,\"trace_configures\":%ld,\"steer_stalls\":%ld,\"window_latches\":%ld,"
+			"\"directed\":%d,\"dir_rounds\":%ld,\"dir_timing_detectable\":%ld,\"dir_on_time\":%ld,\"dir_late_unproven\":%ld,\"dir_inconclusive\":%ld,\"dir_reset_while_armed\":%ld,"
+			"\"dir_applied_by_manager\":%ld,\"dir_max_late_us\":%ld,\"manager_known\":%d,\"manager_threads\":%d,\"takes_tq_marker\":%ld,\"takes_tq_nomarker\":%ld,\"takes_nolatch\":%ld,"
+			"\"takes_armed\":%ld,\"trace_offmgr_heap_records\":%ld,\"trace_offmgr_takes\":%ld,\"failed\":%d}\n",
+			(unsigned long long)g_seed, N, nsrc, own, naft, atomic_load(&g_sets), atomic_load(&g_invocations), atomic_load(&g_checks_exact),
+			atomic_load(&g_checks_weak), atomic_load(&g_after_runs), atomic_load(&g_zero_data), atomic_load(&g_inconclusive),
+			(unsigned long long)waited_ms, trace_records, trace_exact, trace_slots,
+			atomic_load(&g_checks_bound), atomic_load(&g_bind_mismatch), atomic_load(&g_cfgs), atomic_load(&g_cfg_disarmed_pending), atomic_load(&g_cfg_armed_pending), atomic_load(&g_cfg_unclosed),
+			g_scen[SC_SUSP_FIRE], g_scen[SC_BUSY_QUEUE], g_scen[SC_SLOW_HANDLER], g_scen[SC_ONESHOT_FIRED], g_trace_cfgs, atomic_load(&g_steer_stalls), atomic_load(&g_window_latches),
+			g_directed, atomic_load(&g_dir_rounds), atomic_load(&g_dir_detectable), atomic_load(&g_dir_ontime), atomic_load(&g_dir_late_unproven), atomic_load(&g_dir_inconclusive),
+			atomic_load(&g_dir_reset_while_armed), atomic_load(&g_dir_applied_by_mgr), atomic_load(&g_dir_max_late_us), atomic_load(&g_mgr_th) != 0, atomic_load(&g_mgr_threads),
+			atomic_load(&g_take_tq_marker), atomic_load(&g_take_tq_nomarker), atomic_load(&g_take_nolatch), atomic_load(&g_take_armed), g_trace_offmgr_heap, g_trace_offmgr_takes,
+			atomic_load(&g_fail));
+	fflush(stdout);
+	_exit(atomic_load(&g_fail) ? 2 : 0);
+}
+
+/* ------------------------------------------------------------------ directed population: an ARMED timer re-sets itself
+ * Timer.tla: SetTimer while tpc = "post" on an armed timer; TPost must leave the configuration pending (OffManagerMayConfigure is
+ * false without the DISARMED marker), Wants = "mgr", MInvoke configures and re-sifts, MProg reprograms, and the liveness
+ * properties ConfigApplied / Fires promise the invocation at the new settings.  With the configuration applied off the manager
+ * (mutant worker_configures_armed) the behaviour ends in: heap minimum = new start, kt = old expiry, manager in epoll_wait.
+ * Here that end state is observable because NOTHING else can wake the manager: rounds run one after the other, every timer sits
+ * on a private serial queue (overcommit root queue: the library's 1 Hz workqueue-monitor timer is never started), no global
+ * queue, no dispatch_after, no other timer.  Round: timer T (start +15..40 ms, interval OLD) fires once; its handler, after
+ * 0..25 ms of work, calls dispatch_source_set_timer(T, +X, Y) (clock kept or changed) and maybe works on; then
+ *   due  = max(uptime when set_timer returned + X, uptime when the handler returned)       (>= the new start)
+ *   FollowsNewSettings: the 2nd invocation happens; it is a VIOLATION when at some instant > due + DIR_SLACK_MS there still
+ *     is none AND every other thread of the process has been asleep for 300 ms (quiescent()): the only thing that could wake
+ *     the process is the timerfd, and it is not set for this timer.  Lateness alone (threads runnable but not scheduled on a
+ *     loaded machine) is never a violation: it is counted (dir_late_unproven);
+ *   NeverEarly / CountBound / OnlyNewConfig: the ordinary exact oracles of source_handler (generation 2 is in force).
+ * Variants (i mod 5): OLD 3 s..1 h with X = 40..150 ms (0: fast handler, 1: work before the re-set, 2: work after it, 3: X = now
+ * or past), and 4: X longer than a short OLD interval (there the old expiry wakes the manager and repairs the schedule: only the
+ * ownership laws of TimerTrace.tla can see a deviation; the timing oracle stays valid).  A third of the rounds target a chain
+ * of two serial queues. */
+#define DIR_SLACK_MS 400
+static void gen_directed(void)
+{
+	for (int i = 0; i < N; i++) {
+		tmr_t *t = &T[i]; cfgspec_t *f = &t->first, *r = &t->inh_spec;
+		t->id = i; t->kind = K_SOURCE; t->own = 1; t->strict = rndin(0, 3) == 0; t->scen = SC_RESET_ARMED; g_scen[SC_RESET_ARMED]++;
+		memset(f, 0, sizeof(*f)); memset(r, 0, sizeof(*r));
+		f->clock = (int)rndin(0, 2); f->how = (int)rndin(0, 1);
+		f->delta_ns = (int64_t)(rndin(15, 40) * NSEC_PER_MSEC + rndin(0, 999999));
+		f->leeway_ns = rndin(0, 1) ? 0 : NSEC_PER_MSEC;
+		r->clock = rndin(0, 99) < 65 ? f->clock : (int)rndin(0, 2); r->how = (int)rndin(0, 1);
+		r->leeway_ns = rndin(0, 1) ? 0 : NSEC_PER_MSEC;
+		r->interval_ns = rndin(0, 99) < 20 ? 0 : rndin(30, 90) * NSEC_PER_MSEC + rndin(0, 999999);
+		t->inh_at = 1; t->slow_at = 0; t->nops = 0;
+		int v = i % 5;
+		/* (trace mode: microseconds since the base must fit 31 bits, also after target += interval) */
+		if (v <= 3) f->interval_ns = (rndin(0, 2) == 0 && !g_traceout ? 3600ull : rndin(3, 20)) * NSEC_PER_SEC + rndin(0, 999) * 1000;
+		if (v <= 2) r->delta_ns = (int64_t)(rndin(40, 150) * NSEC_PER_MSEC + rndin(0, 999999));
+		if (v == 1) { t->slow_at = 1; t->slow_us = rndin(5, 25) * 1000; }
+		if (v == 2) t->slow_after_us = rndin(5, 25) * 1000;
+		if (v == 3) {
+			if (rndin(0, 1)) r->how = 2; else r->delta_ns = -(int64_t)(rndin(0, 3) * NSEC_PER_MSEC);
+			t->slow_at = 1; t->slow_us = rndin(2, 20) * 1000;
+		}
+		if (v == 4) {
+			f->interval_ns = rndin(40, 80) * NSEC_PER_MSEC + rndin(0, 999) * 1000;
+			r->delta_ns = (int64_t)(f->interval_ns + rndin(40, 120) * NSEC_PER_MSEC);
+			if (rndin(0, 1)) { t->slow_at = 1; t->slow_us = rndin(2, 10) * 1000; }
+		}
+		t->chain = rndin(0, 2) == 0;
+	}
+}
+static void dir_cancelled(void *ctx) { tmr_t *t = ctx; atomic_store(&t->cancelled_done, 1); }
+
+static void directed_reset(void)
+{
+	for (int i = 0; i < N && !atomic_load(&g_fail); i++) {
+		tmr_t *t = &T[i];
+		char lbl[40]; snprintf(lbl, sizeof(lbl), "c11.d%d", i);
+		dispatch_queue_t base = NULL;
+		t->q = dispatch_queue_create(lbl, DISPATCH_QUEUE_SERIAL);
+		if (t->chain) { snprintf(lbl, sizeof(lbl), "c11.d%d.base", i); base = dispatch_queue_create(lbl, DISPATCH_QUEUE_SERIAL); dispatch_set_target_queue(t->q, base); }
+		t->ds = dispatch_source_create(DISPATCH_SOURCE_TYPE_TIMER, 0, t->strict ? DISPATCH_TIMER_STRICT : 0, t->q);
+		dispatch_set_context(t->ds, t);
+		t->dt = t->ds->ds_timer_refs; map_timer(t->dt, t);
+		dispatch_source_set_event_handler_f(t->ds, source_handler);
+		dispatch_source_set_cancel_handler_f(t->ds, dir_cancelled);
+		t->last_done_prev = 1;
+		do_set(t, &t->first, 0); t->cur = 1;
+		uint64_t t0 = _dispatch_uptime();
+		dispatch_activate(t->ds);
+		atomic_fetch_add(&g_dir_rounds, 1);
+		int detectable = (i % 5) <= 3, dead = 0;
+		if (detectable) atomic_fetch_add(&g_dir_detectable, 1);
+		/* the first fire (old settings) and the re-set inside its handler */
+		while (!atomic_load(&t->hret_up) && !atomic_load(&g_fail)) {
+			uint64_t w = (_dispatch_uptime() - t0) / NSEC_PER_MSEC;
+			if (w > 10000 && (w > 45000 || quiescent()) && !atomic_load(&t->hret_up)) {
+				oracle_fail(t, "Fires", "armed, unsuspended, uncancelled timer (directed re-set population, first fire) not invoked although it is overdue (a = ms since activation) "
+						"and every thread of the process sleeps", w, 0);
+				dead = 1; break;
+			}
+			usleep(w > 10000 ? 5000 : 300);
+		}
+		if (!dead && !atomic_load(&g_fail)) {
+			cfgspec_t *r = &t->inh_spec;
+			int64_t x = r->how == 2 || r->delta_ns < 0 ? 0 : r->delta_ns;
+			uint64_t due = atomic_load(&t->set_up) + (uint64_t)x, hret = atomic_load(&t->hret_up);
+			if (hret > due) due = hret;
+			for (;;) {
+				if (atomic_load(&t->inv_up[1]) || atomic_load(&g_fail)) break;
+				uint64_t nowu = _dispatch_uptime();
+				if (nowu > due + DIR_SLACK_MS * NSEC_PER_MSEC) {
+					if (quiescent() && !atomic_load(&t->inv_up[1])) {
+						if (wall_stepped(&t->cfgs[2])) { atomic_fetch_add(&g_dir_inconclusive, 1); dead = 1; break; }
+						oracle_fail(t, "FollowsNewSettings", "a repeating timer that was still armed re-set itself from its own event handler (dispatch_source_set_timer, new start = "
+								"b us after the call) and has not been invoked a = ms after the new start although every other thread of the process sleeps and "
+								"nothing else is pending: the timerfd is not programmed for the new settings (the old schedule is still being followed)",
+								(_dispatch_uptime() - due) / NSEC_PER_MSEC, (uint64_t)x / 1000);
+						dead = 1; break;
+					}
+					if (nowu > due + 120ull * NSEC_PER_SEC) {
+						oracle_fail(t, "Fires", "re-set timer not invoked 120 s after its new start (a = ms overdue)", (nowu - due) / NSEC_PER_MSEC, 0);
+						dead = 1; break;
+					}
+					usleep(5000);
+				} else usleep(300);
+			}
+			uint64_t inv2 = atomic_load(&t->inv_up[1]);
+			if (inv2) {
+				uint64_t late_us = inv2 > due ? (inv2 - due) / 1000 : 0;
+				if ((long)late_us > atomic_load(&g_dir_max_late_us)) atomic_store(&g_dir_max_late_us, (long)late_us);
+				atomic_fetch_add(late_us > DIR_SLACK_MS * 1000ull ? &g_dir_late_unproven : &g_dir_ontime, 1);
+				tlog(t, 'D', 2, inv2, late_us, due);
+			}
+			/* who applied generation 2 */
+			while (atomic_exchange_explicit(&t->hl, 1, memory_order_acquire)) sched_yield();
+			int tk = t->take_th[2];
+			atomic_store_explicit(&t->hl, 0, memory_order_release);
+			if (tk && tk == atomic_load(&g_mgr_th)) atomic_fetch_add(&g_dir_applied_by_mgr, 1);
+		}
+		atomic_store(&t->cancelled, 1);
+		dispatch_source_cancel(t->ds);
+		for (int k = 0; k < 4000 && !atomic_load(&t->cancelled_done); k++) usleep(500);
+		dispatch_release(t->ds); dispatch_release(t->q); if (base) dispatch_release(base);
+		usleep(2000);
+	}
 }
 
 static void on_crash(int sig) { fprintf(stderr, "CRASH signal %d inside libdispatch (seed %llu)\n", sig, (unsigned long long)g_seed); _exit(70); }
@@ -686,7 +909,8 @@ int main(int argc, char **argv)
 	g_traceout = argc > 5 ? argv[5] : NULL;
 	g_trace_only = g_traceout && getenv("C11_TRACE_ONLY") != NULL;
 	if (getenv("C11_STEER_CFG_WINDOW")) g_steer_us = (unsigned)atoi(getenv("C11_STEER_CFG_WINDOW"));
-	gen_population(span_ms);
+	g_directed = getenv("C11_DIRECTED_RESET") != NULL;
+	if (g_directed) gen_directed(); else gen_population(span_ms);
 	if (g_traceout) {
 		for (int i = 0; i < N; i++) {
 			T[i].first.interval_ns -= T[i].first.interval_ns % 1000; T[i].inh_spec.interval_ns -= T[i].inh_spec.interval_ns % 1000;
@@ -694,10 +918,11 @@ int main(int argc, char **argv)
 		}
 		for (int c = 0; c < 3; c++) { uint64_t n = clock_now(c); g_base[c] = n - n % 1000 - 10ull * NSEC_PER_SEC; }
 		g_prec = calloc(PCAP, sizeof(prec_t));
-		_dispatch_verif_probe = probe_cb;
 	}
+	_dispatch_verif_probe = probe_cb;      /* without a trace: only to learn which thread is the manager (statistics) */
 	_dispatch_verif_pre = hook_pre; _dispatch_verif_post = hook_post;
 	g_t0_up = _dispatch_uptime();
+	if (g_directed) { directed_reset(); finish(0); }
 	dispatch_queue_t gq = dispatch_get_global_queue(DISPATCH_QUEUE_PRIORITY_DEFAULT, 0);
 
 	/* global, time-sorted control script: (at_ms, timer, op index; op index -1 = create/arm) */
@@ -791,29 +1016,6 @@ int main(int argc, char **argv)
 		}
 		usleep(5000); waited_ms += 5;
 	}
-	if (atomic_load(&g_fail)) { printf("{\"seed\":%llu,\"failed\":1}\n", (unsigned long long)g_seed); fflush(stdout); _exit(2); }
-	/* late duplicates of dispatch_after blocks */
-	usleep(60000);
-	for (int i = 0; i < N; i++) if (T[i].kind != K_SOURCE && !atomic_load(&g_fail) &&
-			atomic_load(&T[i].aruns) != (T[i].acfg.start > clock_now(T[i].acfg.clock) ? 0 : 1))
-		oracle_fail(&T[i], "AfterExactlyOnce", "dispatch_after block did not run exactly once (a runs)", (uint64_t)atomic_load(&T[i].aruns), 0);
-	for (int i = 0; i < N; i++) if (T[i].kind == K_SOURCE && T[i].ds && !atomic_load(&T[i].cancelled)) {
-		if (atomic_load(&T[i].suspended)) dispatch_resume(T[i].ds);
-		dispatch_source_cancel(T[i].ds);
-	}
-	usleep(20000);
-	long trace_records = 0; int trace_exact = 1, trace_slots = 0;
-	if (g_traceout) { _dispatch_verif_probe = NULL; usleep(20000); write_trace(&trace_records, &trace_exact, &trace_slots); }
-	int nsrc = 0, naft = 0, own = 0; for (int i = 0; i < N; i++) { if (T[i].kind == K_SOURCE) { nsrc++; own += T[i].own; } else naft++; }
-	printf("{\"seed\":%llu,\"timers\":%d,\"sources\":%d,\"own_queue_controlled\":%d,\"after_blocks\":%d,\"set_timer_calls\":%ld,\"handler_invocations\":%ld,"
-			"\"exact_checks\":%ld,\"weak_checks\":%ld,\"after_runs\":%ld,\"zero_data_invocations\":%ld,\"inconclusive_wall_step\":%ld,\"final_wait_ms\":%llu,\"trace_records\":%ld,\"trace_exact\":%d,\"trace_slots\":%d,"
-			"\"bound_checks\":%ld,\"bind_mismatch\":%ld,\"configures\":%ld,\"configure_on_disarmed_pending\":%ld,\"configure_on_armed_pending\":%ld,\"configure_unclosed\":%ld,"
-			"\"scen_susp_fire\":%ld,\"scen_busy_queue\":%ld,\"scen_slow_handler\":%ld,\"scen_oneshot_fired\":%ld,\"trace_configures\":%ld,\"steer_stalls\":%ld,\"window_latches\":%ld,\"failed\":%d}\n",
-			(unsigned long long)g_seed, N, nsrc, own, naft, atomic_load(&g_sets), atomic_load(&g_invocations), atomic_load(&g_checks_exact),
-			atomic_load(&g_checks_weak), atomic_load(&g_after_runs), atomic_load(&g_zero_data), atomic_load(&g_inconclusive),
-			(unsigned long long)waited_ms, trace_records, trace_exact, trace_slots,
-			atomic_load(&g_checks_bound), atomic_load(&g_bind_mismatch), atomic_load(&g_cfgs), atomic_load(&g_cfg_disarmed_pending), atomic_load(&g_cfg_armed_pending), atomic_load(&g_cfg_unclosed),
-			g_scen[SC_SUSP_FIRE], g_scen[SC_BUSY_QUEUE], g_scen[SC_SLOW_HANDLER], g_scen[SC_ONESHOT_FIRED], g_trace_cfgs, atomic_load(&g_steer_stalls), atomic_load(&g_window_latches), atomic_load(&g_fail));
-	fflush(stdout);
-	_exit(atomic_load(&g_fail) ? 2 : 0);
+	finish(waited_ms);
 }
+
